@@ -169,16 +169,22 @@ def ackedE (cfg : Cfg) (env : Env) (s : StE) : List Op → List Bytes
   | o :: os => ackedE cfg env (applyE cfg env s o).s os
 
 /-- which Go calls a constructor of `Sys` stands for: (receiver, name) with receiver `os` for a function of package os,
-    `File` for a method of `*os.File` (the size of the log file may be asked of the path or of the descriptor) -/
+    `File` for a method of `os.File` (the size of the log file may be asked of the path or of the descriptor, the bytes
+    may be written as a string) -/
 def Sys.goCalls : Sys → List (String × String)
   | .mkdirAll => [("os", "MkdirAll")]
-  | .stat => [("os", "Stat"), ("File", "Stat")]
+  | .stat => [("os", "Stat"), ("os", "Lstat"), ("File", "Stat")]
   | .openFile => [("os", "OpenFile")]
   | .closeFd => [("File", "Close")]
   | .syncFd => [("File", "Sync")]
-  | .writeFd => [("File", "Write")]
+  | .writeFd => [("File", "Write"), ("File", "WriteString")]
   | .remove _ _ => [("os", "Remove")]
   | .rename _ _ _ => [("os", "Rename")]
+
+/-- functions of package os / methods of `os.File` that make no system call (predicates on error values, the name the
+    file was opened with) -/
+def Sys.pureOs : List String := ["IsNotExist", "IsExist", "IsPermission", "IsTimeout"]
+def Sys.pureFile : List String := ["Name"]
 
 /-- one representative of every constructor -/
 def Sys.kinds : List Sys := [.mkdirAll, .stat, .openFile, .closeFd, .syncFd, .writeFd, .remove 0 true, .rename 0 1 true]
